@@ -355,7 +355,7 @@ def c12_winpath(n, parent):
             continue
         sel = v[c.start:c.end]
         if c.type in ("filename", "executable.filename", "executable.library.filename"):
-            if sel != bytes(c.value) or sel != v.split(b"\\")[-1]:
+            if sel != bytes(c.value) or sel != v.split(b"\\")[-1] or c.end != len(v):
                 msgs.append(f"file-name child selects {sel!r} of {v!r}, value {bytes(c.value)!r}")
         elif c.type == "network.domain":
             if sel != bytes(c.value):
